@@ -162,11 +162,23 @@ func (r *SimReaderAt) ReadAt(p []byte, off int64) (int, error) {
 var ErrSimDiskFull = errors.New("simdisk: no space left on device")
 var ErrSimInterrupted = errors.New("simdisk: interrupted write")
 
+// simNetError is a failure that describes itself as temporary / a timeout
+// (EAGAIN-style, as net.Error and syscall.Errno values do). It is as much a
+// failure as any other: nothing was written.
+type simNetError struct{ msg string }
+
+func (e *simNetError) Error() string   { return e.msg }
+func (e *simNetError) Temporary() bool { return true }
+func (e *simNetError) Timeout() bool   { return true }
+
+var ErrSimTemporary error = &simNetError{msg: "simdisk: resource temporarily unavailable"}
+
 // WriteFault: the writer accepts exactly After bytes; the write that would
 // exceed that is cut short and fails. Once: only that one write fails.
 type WriteFault struct {
 	After int  `json:"after"`
 	Once  bool `json:"once,omitempty"`
+	Temp  bool `json:"temp,omitempty"` // the error describes itself as Temporary()/Timeout()
 }
 
 // SimWriter records what it receives, is a scheduling point on every call and
@@ -207,6 +219,9 @@ func (w *SimWriter) Write(p []byte) (int, error) {
 		w.Buf = append(w.Buf, p[:n]...)
 		w.Fired++
 		w.sched.note(evFault, 100)
+		if f.Temp {
+			return n, ErrSimTemporary
+		}
 		if f.Once {
 			return n, ErrSimInterrupted
 		}
